@@ -1,9 +1,9 @@
 CONSTANTS
-  Secs <- SecsUniform
+  Secs <- SecsMixed
   NChrom = 3
-  NSec = 2
-  Window = 3
-  ChanCap = 2
+  NSec = 0
+  Window = 2
+  ChanCap = 1
 SPECIFICATION Spec
 INVARIANTS Deterministic NoStuck
 PROPERTIES Terminates
